@@ -55,7 +55,7 @@ TABLE = {
             'For linear models with symbolic y samples, symbolic errors, symbolic priors and a symbolic inverse Cholesky factor: the function handed to the minimiser is the documented chi-square at an arbitrary point, '
             'the matrices handed to scipy.linalg.solve are the GLS normal matrix and right-hand side, and every fluctuation / gradient of every parameter is -X times the (embedded) data fluctuation; '
             'together with the contracts this is the GLS estimator in value and every fluctuation; chisquare, dof and p-value arguments are decided as well.',
-            'Minimisers and LAPACK replaced by contracts (stationary point, or reported failure with an arbitrary point - then the fit must raise; A X = B); estimated correlation matrices and expected_chisquare outside; the final linear-algebra step (H X = M => GLS) is an argument, not a query.'),
+            'Minimisers and LAPACK replaced by contracts (stationary point, or reported failure with an arbitrary point - then the fit must raise; A X = B); correlation matrices estimated from the data: wiring into covariance / invert_corr_cov_cholesky decided here, the two functions in C06 (compositional); expected_chisquare outside; the final linear-algebra step (H X = M => GLS) is an argument, not a query.'),
     'C08': (True, 'symbolic execution of least_squares / total_least_squares for non-linear models behind minimiser / ODR / linear-solve contracts; decomposed SMT obligations (A) Hessian, (B) mixed derivatives, (C) wiring, (D) function minimised',
             'For exponential, cosh, rational and multi-dimensional models (and the TLS straight line / exponential / rational) the matrices handed to the linear solver are proven to be the Hessian and the '
             'mixed second derivatives of an independently written chi-square (incl. the x-residual term) at the stationary point, and every parameter fluctuation is -X d(data) in the library\'s data order; '
